@@ -30,6 +30,7 @@ class Reporter:
         self.pid = property_id
         self.known = load_known()
         self.by_kind = {}         # kind -> ((size, ident), what, case)
+        self.by_feats = {}        # (prefix, frozenset(features)) -> ((size, text), what, case)
         self.raw = 0
 
     def violation(self, kind, what, case, size=0, ident=""):
@@ -41,9 +42,34 @@ class Reporter:
         if cur is None or (size, ident) < cur[0]:
             self.by_kind[kind] = ((size, ident), what, case)
 
+    def feature_violation(self, prefix, feats, what, case, size=0, text=""):
+        """Record a violating *program*.  Programs are grouped by construct-feature set; at finish() only the
+        minimal feature sets (antichain under inclusion) are reported, each with its smallest program."""
+        self.raw += 1
+        key = (prefix, frozenset(feats))
+        cur = self.by_feats.get(key)
+        if cur is None or (size, text) < cur[0]:
+            self.by_feats[key] = ((size, text), what, case)
+
+    def _reduce_features(self):
+        groups = {}
+        for (prefix, feats), v in self.by_feats.items():
+            groups.setdefault(prefix, []).append((feats, v))
+        for prefix, lst in groups.items():
+            lst.sort(key=lambda fv: (len(fv[0]), fv[1][0]))
+            kept = []
+            for feats, v in lst:
+                if any(k <= feats for k, _ in kept):
+                    continue
+                kept.append((feats, v))
+            for feats, ((size, text), what, case) in kept:
+                kind = f"{prefix}:{{{','.join(sorted(feats))}}}"
+                self.by_kind[kind] = ((size, ""), what, case)
+
     def finish(self):
         """Print KNOWN-FINDING / VIOLATION lines.  Returns (n_new_violations, n_known)."""
         new = known = 0
+        self._reduce_features()
         for kind in sorted(self.by_kind):
             (size, ident), what, case = self.by_kind[kind]
             key = kind + (" @ " + ident if ident else "")
